@@ -161,78 +161,91 @@ func ruleSingleDecision(c *Ctx) {
 		return
 	}
 	errObj := c.paramObj(stop, 0)
-	// every `return true` implies err != nil && !ContinueOnError; every other return is false
-	okTrue, okOther, nTrue := true, true, 0
+	isCOE := func(e ast.Expr) bool {
+		se, ok := unparen(e).(*ast.SelectorExpr)
+		return ok && c.isOptionField(se, "ContinueOnError")
+	}
+	// literal classification: +1 err != nil, -1 err == nil, +2 ContinueOnError, -2 !ContinueOnError, 0 other
+	classify := func(cl condLit) int {
+		v := 0
+		switch c.errCheckKind(cl.e, errObj) {
+		case "nonnil":
+			v = 1
+		case "nil":
+			v = -1
+		}
+		if v == 0 && isCOE(cl.e) {
+			v = 2
+		}
+		if cl.neg {
+			v = -v
+		}
+		return v
+	}
+	okTrue, okFalse, okConst, nTrue, nFalse := true, true, true, 0, 0
 	ast.Inspect(stop.Body, func(n ast.Node) bool {
+		if _, isLit := n.(*ast.FuncLit); isLit {
+			return false
+		}
 		rs, ok := n.(*ast.ReturnStmt)
 		if !ok || len(rs.Results) != 1 {
 			return true
 		}
 		tv, isConst := c.Info.Types[rs.Results[0]]
 		if !isConst || tv.Value == nil {
-			okOther = false
+			okConst = false
 			return true
 		}
+		raw := c.condsAt(stop, rs)
 		if tv.Value.String() == "true" {
 			nTrue++
 			nonNil, notCont := false, false
-			for _, cl := range c.literalsAt(stop, rs) {
-				if c.errCheckKind(cl.e, errObj) == "nonnil" && !cl.neg {
-					nonNil = true
-				}
-				if se, ok := unparen(cl.e).(*ast.SelectorExpr); ok && c.isOptionField(se, "ContinueOnError") && cl.neg {
-					notCont = true
+			for _, cl := range raw {
+				for _, l := range splitConj(cl) {
+					switch classify(l) {
+					case 1:
+						nonNil = true
+					case -2:
+						notCont = true
+					}
 				}
 			}
 			if !nonNil || !notCont {
 				okTrue = false
 			}
+			return true
+		}
+		// return false: err == nil, or ContinueOnError, must be implied
+		nFalse++
+		implied := false
+		for _, cl := range raw {
+			for _, l := range splitConj(cl) {
+				if k := classify(l); k == -1 || k == 2 {
+					implied = true
+				}
+			}
+			// a negated conjunction !(err != nil && !ContinueOnError) is the disjunction we want
+			if cl.neg {
+				conj := splitConj(condLit{cl.e, false})
+				all := len(conj) > 0
+				for _, l := range conj {
+					if k := classify(l); k != 1 && k != -2 {
+						all = false
+					}
+				}
+				if all {
+					implied = true
+				}
+			}
+		}
+		if !implied {
+			okFalse = false
 		}
 		return true
 	})
 	c.ob(rule, "stop-implies-error", stop.Pos(), okTrue && nTrue > 0, "the predicate may answer 'stop' only when the error is non-nil and ContinueOnError is off")
-	c.ob(rule, "constant-answers", stop.Pos(), okOther, "the predicate must answer with constants so that its contract is decidable")
-	// with ContinueOnError off a non-nil error must stop: the `return true` test must be exactly err != nil && !ContinueOnError (no extra conjunct)
-	exact := false
-	ast.Inspect(stop.Body, func(n ast.Node) bool {
-		ifs, ok := n.(*ast.IfStmt)
-		if !ok {
-			return true
-		}
-		lits := splitConj(condLit{ifs.Cond, false})
-		if len(lits) == 2 && blockAlwaysReturns(ifs.Body) {
-			a, b := false, false
-			for _, l := range lits {
-				if c.errCheckKind(l.e, errObj) == "nonnil" && !l.neg {
-					a = true
-				}
-				if se, ok := unparen(l.e).(*ast.SelectorExpr); ok && c.isOptionField(se, "ContinueOnError") && l.neg {
-					b = true
-				}
-			}
-			if a && b {
-				if rs, ok := ifs.Body.List[len(ifs.Body.List)-1].(*ast.ReturnStmt); ok && len(rs.Results) == 1 {
-					if tv, ok := c.Info.Types[rs.Results[0]]; ok && tv.Value != nil && tv.Value.String() == "true" {
-						// and nothing before it returns
-						exact = true
-						for _, s := range stop.Body.List {
-							if s == ast.Stmt(ifs) {
-								break
-							}
-							if _, isRet := s.(*ast.ReturnStmt); isRet {
-								exact = false
-							}
-							if i2, isIf := s.(*ast.IfStmt); isIf && blockAlwaysReturns(i2.Body) {
-								exact = false
-							}
-						}
-					}
-				}
-			}
-		}
-		return true
-	})
-	c.ob(rule, "error-stops-unless-continue", stop.Pos(), exact, "a non-nil error with ContinueOnError off must make the predicate answer 'stop' (first statement: if err != nil && !ContinueOnError { return true })")
+	c.ob(rule, "constant-answers", stop.Pos(), okConst, "the predicate must answer with constants so that its contract is decidable")
+	c.ob(rule, "error-stops-unless-continue", stop.Pos(), okFalse && nFalse > 0, "the predicate may answer 'continue' only when the error is nil or ContinueOnError is on: otherwise a failure is silently skipped in strict mode")
 }
 
 func (c *Ctx) isOptionField(se *ast.SelectorExpr, name string) bool {
